@@ -344,7 +344,8 @@ func (s MsgServer) UnbondedOracle(c context.Context, msg *types.MsgUnbondedOracl
 	s.DelOracleAddrByExternalAddr(ctx, oracle.ExternalAddress)
 	s.DelOracleAddrByBridgerAddr(ctx, oracle.GetBridger())
 	s.DelOracle(ctx, oracle.GetOracle())
-	s.DelLastEventNonceByOracle(ctx, oracleAddr)
+	// the oracle's last voted event nonce is kept: if it bonds again it must not be able to vote
+	// a second time for an event nonce it has already voted for
 
 	return &types.MsgUnbondedOracleResponse{}, nil
 }
